@@ -285,6 +285,10 @@ def get_cauchy_point(
                 nseg, f_prime, f_second, None, delta_t_min, iprint, logger
             )
 
+    if not d.any():
+        # every moving variable has been fixed at its bound: f_prime and p are pure
+        # rounding residue and the GCP is the last breakpoint.
+        delta_t_min = 0.0
     delta_t_min = 0 if delta_t_min < 0 else delta_t_min
     t_old += delta_t_min
 
